@@ -30,6 +30,7 @@ def instances(tier):
     combos = [c + (None,) for c in combos]
     # destination clip reaching beyond the image; near-opaque colour on a wide destination
     combos += [("SRC", "a8r8g8b8", "0x8000", "right-bottom-out", (1, 0, 6, 5)), ("SRC", "a1", "0xffff", "column", (0, 1, 9, 2))]
+    # ("OVER", "a2r10g10b10", "0xff00", "inside"): near-opaque colour on a wide destination goes through the float pipeline - out of memory (16 GB) after 730 s, not registered
     for op, fmt, al, bx, clip in combos:
         b = BOXES[bx]
         dd = {"OP": OPS[op], "FMT": "PIXMAN_" + fmt, "ALPHA": al, "BX1": b[0], "BY1": b[1], "BX2": b[2], "BY2": b[3]}
@@ -50,5 +51,5 @@ NOTE = ("API-level instances need concrete geometry, colour alpha, operator and 
         "C02 if at all; pixman_blt has no C implementation (general returns FALSE).")
 RULE = "C19 instance = fill unit per bpp | fill_boxes (operator, format, alpha class, box)."
 BOUNDS = {"fill": "buffer 2 rows x 2 words, all rectangles", "fill_boxes": "3x2 destination with padding, box from a menu of 7, 1 box per call"}
-OUTSIDE = ["sse2_fill / sse2_blt / mmx_fill / mmx_blt", "multi-box calls (region sweep not encodable)", "clip regions on the destination", "fill_rectangles with more than 6 rectangles"]
+OUTSIDE = ["wide (10-bit/float) destinations: the float pipeline does not fit (measured: out of memory at 16 GB)", "sse2_fill / sse2_blt / mmx_fill / mmx_blt", "multi-box calls (region sweep not encodable)", "clip regions on the destination", "fill_rectangles with more than 6 rectangles"]
 ASSUMPTIONS = ["allocation succeeds"]
